@@ -413,3 +413,93 @@ Proof.
   - destruct ref; [congruence|discriminate].
 Qed.
 End GD.
+
+(* ================================================================== *)
+(* soundness of the executable enclosure of gd (what the correspondence evaluates) *)
+Section Encl.
+Local Open Scope R_scope.
+
+Lemma IZR_pow4 p : IZR (4 ^ Zpos p) = IZR (2 ^ Zpos p) * IZR (2 ^ Zpos p).
+Proof. rewrite <- mult_IZR. f_equal. change 4%Z with (2 * 2)%Z. now rewrite Z.pow_mul_l. Qed.
+
+Lemma IZR_den p b : IZR (Zpos (b * 2 ^ p)) = IZR (Zpos b) * IZR (2 ^ Zpos p).
+Proof. rewrite <- mult_IZR. f_equal. rewrite Pos2Z.inj_mul, Pos2Z.inj_pow. reflexivity. Qed.
+
+Lemma sqrt_enclosure p q : (0 <= q)%Q ->
+  Q2R (sqrt_lo p q) <= sqrt (Q2R q) <= Q2R (sqrt_hi p q).
+Proof.
+  destruct q as [a b]. intros Hq. unfold Qle in Hq. cbn in Hq. rewrite Z.mul_1_r in Hq.
+  unfold sqrt_lo, sqrt_hi. cbn [Qnum Qden].
+  set (N := (a * Zpos b * 4 ^ Zpos p)%Z).
+  assert (N0 : (0 <= N)%Z) by (unfold N; apply Z.mul_nonneg_nonneg; [apply Z.mul_nonneg_nonneg|]; lia).
+  destruct (Z.sqrt_spec N N0) as [Lo Hi]. set (s := Z.sqrt N) in *.
+  assert (s0 : (0 <= s)%Z) by apply Z.sqrt_nonneg.
+  unfold Q2R. cbn [Qnum Qden]. rewrite IZR_den, plus_IZR.
+  set (A := IZR a). set (B := IZR (Zpos b)). set (P := IZR (2 ^ Zpos p)). set (S := IZR s).
+  assert (A0 : 0 <= A) by (apply IZR_le; assumption).
+  assert (B0 : 0 < B) by (apply IZR_lt; lia).
+  assert (P0 : 0 < P) by (apply IZR_lt; apply Z.pow_pos_nonneg; lia).
+  assert (S0 : 0 <= S) by (apply IZR_le; assumption).
+  assert (NR : IZR N = A * B * (P * P)) by (unfold N; rewrite !mult_IZR, IZR_pow4; reflexivity).
+  assert (LoR : S * S <= A * B * (P * P)) by (rewrite <- NR; unfold S; rewrite <- mult_IZR; apply IZR_le; exact Lo).
+  assert (HiR : A * B * (P * P) < (S + 1) * (S + 1)).
+  { rewrite <- NR. replace (S + 1) with (IZR (Z.succ s)) by (rewrite succ_IZR; reflexivity).
+    rewrite <- mult_IZR. apply IZR_lt. exact Hi. }
+  clear NR. clearbody A B P S.
+  assert (BP : 0 < B * P) by (apply Rmult_lt_0_compat; assumption).
+  assert (D0 : 0 < / (B * P)) by (apply Rinv_0_lt_compat; assumption).
+  assert (EQ : A * / B = (A * B * (P * P)) * (/ (B * P) * / (B * P))) by (field; repeat split; Lra.lra).
+  split.
+  - rewrite <- (sqrt_square (S * / (B * P))) by (apply Rmult_le_pos; Lra.lra).
+    apply sqrt_le_1_alt. rewrite EQ.
+    replace (S * / (B * P) * (S * / (B * P))) with (S * S * (/ (B * P) * / (B * P))) by ring.
+    apply Rmult_le_compat_r; [|exact LoR]. apply Rmult_le_pos; Lra.lra.
+  -     rewrite <- (sqrt_square ((S + 1) * / (B * P))) by (apply Rmult_le_pos; Lra.lra).
+    apply sqrt_le_1_alt. rewrite EQ.
+    replace ((S + 1) * / (B * P) * ((S + 1) * / (B * P))) with ((S + 1) * (S + 1) * (/ (B * P) * / (B * P))) by ring.
+    apply Rmult_le_compat_r; [apply Rmult_le_pos; Lra.lra|Lra.lra].
+Qed.
+
+Lemma Q2R_qsum l : Q2R (qsum l) = rsum (map Q2R l).
+Proof.
+  induction l as [|a l IH]; cbn; [unfold Q2R; cbn; Lra.lra|]. rewrite Q2R_plus. unfold qsum in IH. now rewrite IH.
+Qed.
+
+Lemma rsum_le (f g : Q -> R) l : (forall x, In x l -> f x <= g x) -> rsum (map f l) <= rsum (map g l).
+Proof.
+  induction l as [|a l IH]; intros P; cbn; [Lra.lra|].
+  pose proof (P a (or_introl eq_refl)). assert (rsum (map f l) <= rsum (map g l)) by (apply IH; intros; apply P; now right).
+  unfold rsum in *. Lra.lra.
+Qed.
+
+Lemma sqdistQ_nonneg a b : (0 <= sqdistQ a b)%Q.
+Proof.
+  apply Rle_Qle. rewrite Q2R_sqdist. replace (Q2R 0) with 0 by (unfold Q2R; cbn; Lra.lra). apply sqdist_nonneg.
+Qed.
+
+Lemma minsq1_nonneg ref c : (0 <= minsq1 ref c)%Q.
+Proof.
+  destruct ref as [|r rs]; cbn; [apply Qle_refl|].
+  assert (G : forall rs q, (0 <= q)%Q -> (0 <= fold_left (fun m r' => pymin m (sqdistQ r' c)) rs q)%Q).
+  { clear. induction rs as [|r rs IH]; intros q Hq; cbn; [exact Hq|]. apply IH.
+    destruct (pymin_spec q (sqdistQ r c)) as [_ [_ [-> | ->]]]; [exact Hq|apply sqdistQ_nonneg]. }
+  apply G, sqdistQ_nonneg.
+Qed.
+
+Theorem gd_enclosure_sound : forall p ref comp, ref <> [] -> comp <> [] ->
+  Q2R (fst (gd_enclosure p ref comp)) <= gd (embed ref) (embed comp) <= Q2R (snd (gd_enclosure p ref comp)).
+Proof.
+  intros p ref comp NR NC. rewrite (gd_rational_bridge ref comp NR).
+  unfold gd_enclosure. cbn [fst snd].
+  assert (Npos : 0 < INR (length comp)) by (apply lt_0_INR; destruct comp; [congruence|cbn; lia]).
+  assert (NQ : Q2R (inject_Z (Z.of_nat (length comp))) = INR (length comp)).
+  { unfold Q2R, inject_Z. cbn. rewrite INR_IZR_INZ. Lra.lra. }
+  assert (NZ : ~ (inject_Z (Z.of_nat (length comp)) == 0)%Q).
+  { intros E. apply Qeq_eqR in E. rewrite NQ in E. unfold Q2R in E. cbn in E. Lra.lra. }
+  rewrite !Q2R_div by exact NZ. rewrite NQ, !Q2R_qsum, !map_map.
+  assert (INV : 0 < / INR (length comp)) by (apply Rinv_0_lt_compat; exact Npos).
+  unfold Rdiv. split; apply Rmult_le_compat_r; try Lra.lra; apply rsum_le; intros q Hq;
+    (assert (Q0 : (0 <= q)%Q) by (unfold minsq in Hq; apply in_map_iff in Hq; destruct Hq as [c [<- _]]; apply minsq1_nonneg));
+    apply (sqrt_enclosure p q Q0).
+Qed.
+End Encl.
